@@ -15,23 +15,34 @@ pub fn set_hash_seed(s: u64) {
     HCALLS.with(|c| c.set(0));
 }
 
-/// std resolves its weak `getrandom` symbol to this definition, so `RandomState` keys
-/// (drawn once per OS thread) derive from the run seed.
-#[no_mangle]
-pub unsafe extern "C" fn getrandom(buf: *mut libc::c_void, len: libc::size_t, _flags: libc::c_uint) -> libc::ssize_t {
+/// Fills `buf` from the calling thread's hash seed (deterministic).
+pub unsafe fn fill_random(buf: *mut u8, len: usize) {
     let seed = HSEED.try_with(|s| s.get()).unwrap_or(0x5eed_1234);
-    let n = HCALLS.try_with(|c| {
-        let v = c.get();
-        c.set(v + 1);
-        v
-    })
-    .unwrap_or(0);
+    let n = HCALLS
+        .try_with(|c| {
+            let v = c.get();
+            c.set(v + 1);
+            v
+        })
+        .unwrap_or(0);
     let mut r = Rng::new(seed, 99 + n);
-    let p = buf as *mut u8;
     for i in 0..len {
-        *p.add(i) = r.next() as u8;
+        *buf.add(i) = r.next() as u8;
     }
-    len as libc::ssize_t
+}
+
+/// std resolves its weak `getrandom` symbol to a definition in the final binary, so `RandomState`
+/// keys (drawn once per OS thread) derive from the run seed. The symbol must be defined in the
+/// binary crate itself (an rlib member is not pulled in by a weak reference).
+#[macro_export]
+macro_rules! define_getrandom {
+    () => {
+        #[no_mangle]
+        pub unsafe extern "C" fn getrandom(buf: *mut libc::c_void, len: libc::size_t, _flags: libc::c_uint) -> libc::ssize_t {
+            $crate::seams::fill_random(buf as *mut u8, len);
+            len as libc::ssize_t
+        }
+    };
 }
 
 /// Self-test of the seam: iteration order of a std HashMap created on a fresh thread with the
